@@ -55,12 +55,13 @@ Notation tr := (task_right tau_star_total completion (simp_classic_total fuel)).
 Notation ug_assumptions t :=
   (map (fun a => rp_formula (task_placeholders t) (an_formula a)) (filter is_assumption (ug_formulas (et_user_guide t)))).
 
-(* class exclusions of the converse *)
+(* class exclusions of the converse ([ext_voc_public]: the predicates of the specification program and
+   ALL public predicates - the class is the one it was before /repo 18b2e85) *)
 (* the names under which the program's private predicates occur in the problems are pairwise
    distinct, and none of them is a predicate of the specification program or public *)
 Definition rename_faithful (t : ext_task) (L : program) : Prop :=
   (forall p n, In (mkpred p n) (task_prog_private t) ->
-               ~ In (mkpred (rn_name (task_mapping t) p n) n) (ext_voc t L)) /\
+               ~ In (mkpred (rn_name (task_mapping t) p n) n) (ext_voc_public t L)) /\
   no_rename_clash (task_mapping t) (task_prog_private t).
 (* the assumptions of the user guide speak about input predicates only *)
 Definition ug_over_inputs (t : ext_task) : Prop :=
@@ -136,10 +137,10 @@ Proof.
   assert (HpR' : has_private_recursion (ph_program FI ph R) privR = false) by (rewrite ph_has_private_recursion; exact HpR).
   destruct (private_extension_exists (ph_program FI ph R) privR T HpR') as [M' [HM1 HM2]].
   set (M := fun (r : string) (a : list gval) =>
-              (T r a /\ In (mkpred r (List.length a)) (ext_voc t L)) \/
+              (T r a /\ In (mkpred r (List.length a)) (ext_voc_public t L)) \/
               (exists p, In (mkpred p (List.length a)) privR /\ rn_name m p (List.length a) = r /\ M' p a)).
   (* F1: on the vocabulary of the specification side M is T *)
-  assert (F1 : pagree (ext_voc t L) M T).
+  assert (F1 : pagree (ext_voc_public t L) M T).
   { intros r a Hin. unfold M. split.
     - intros [[H _]|[p [Hp [E _]]]]; [exact H|]. exfalso. apply (HC1 p _ Hp). fold m. rewrite E. exact Hin.
     - intros H. left. auto. }
@@ -149,8 +150,8 @@ Proof.
     - intros [[_ Hin]|[p' [Hp' [E H]]]]; [exfalso; exact (HC1 p _ Hp Hin)|].
       rewrite (HC2 p p' _ Hp Hp' (eq_sym E)). exact H.
     - intros H. right. exists p. auto. }
-  assert (Hpub_voc : forall q, In q public -> In q (ext_voc t L)).
-  { intros q Hq. unfold ext_voc. apply in_or_app. right. exact Hq. }
+  assert (Hpub_voc : forall q, In q public -> In q (ext_voc_public t L)).
+  { intros q Hq. unfold ext_voc_public. apply in_or_app. right. exact Hq. }
   (* F3: on the public predicates M and its re-indexing are T *)
   assert (F3 : forall p a, In (mkpred p (List.length a)) public -> (M p a <-> T p a) /\ (reindex m M p a <-> T p a)).
   { intros p a Hq. assert (E : M p a <-> T p a) by (apply (F1 p a); apply Hpub_voc; exact Hq).
@@ -172,7 +173,8 @@ Proof.
     intros [p n] Hq d Hl. cbn in *. subst n. symmetry. refine (proj1 (F3 p d _)).
     unfold public, ug_public_predicates. apply in_iset_extend. left. exact Hq. }
   assert (HstM : ext_stable_full t FI M L).
-  { apply (ext_stable_pagree t L GL thl FI M T HtL (no_input_in_head t L HhL) HoL HGL' Etl F1). exact HstL. }
+  { apply (ext_stable_pagree t L GL thl FI M T HtL (no_input_in_head t L HhL) HoL HGL' Etl
+             (fun p a H => F1 p a (ext_voc_incl_public t L _ H))). exact HstL. }
   assert (Hal : tvalid FI M (assumptions_of lft)).
   { injection El as <-.
     apply (translate_meaning_full fuel t L GL thl HtL (no_input_in_head t L HhL) HoL HGL' Etl FI M) in HstM.
@@ -229,9 +231,9 @@ Proof.
   assert (HpL' : has_private_recursion (ph_program FI ph L) privL = false) by (rewrite ph_has_private_recursion; exact HpL).
   destruct (private_extension_exists (ph_program FI ph L) privL T HpL') as [M' [HM1 HM2]].
   set (M := fun (r : string) (a : list gval) =>
-              (M' r a /\ In (mkpred r (List.length a)) (ext_voc t L)) \/
+              (M' r a /\ In (mkpred r (List.length a)) (ext_voc_public t L)) \/
               (exists p, In (mkpred p (List.length a)) privR /\ rn_name m p (List.length a) = r /\ T p a)).
-  assert (F1 : pagree (ext_voc t L) M M').
+  assert (F1 : pagree (ext_voc_public t L) M M').
   { intros r a Hin. unfold M. split.
     - intros [[H _]|[p [Hp [E _]]]]; [exact H|]. exfalso. apply (HC1 p _ Hp). fold m. rewrite E. exact Hin.
     - intros H. left. auto. }
@@ -240,15 +242,15 @@ Proof.
     - intros [[_ Hin]|[p' [Hp' [E H]]]]; [exfalso; exact (HC1 p _ Hp Hin)|].
       rewrite (HC2 p p' _ Hp Hp' (eq_sym E)). exact H.
     - intros H. right. exists p. auto. }
-  assert (Hpub_voc : forall q, In q public -> In q (ext_voc t L)).
-  { intros q Hq. unfold ext_voc. apply in_or_app. right. exact Hq. }
+  assert (Hpub_voc : forall q, In q public -> In q (ext_voc_public t L)).
+  { intros q Hq. unfold ext_voc_public. apply in_or_app. right. exact Hq. }
   assert (F3 : forall p a, In (mkpred p (List.length a)) public -> (M p a <-> T p a) /\ (reindex m M p a <-> T p a)).
   { intros p a Hq.
     assert (E : M p a <-> T p a).
     { rewrite (F1 p a (Hpub_voc _ Hq)). apply HM1. intros Hp. exact (proj2 (HprivL _ Hp) Hq). }
     split; [exact E|]. unfold reindex. pose proof (mapping_public t p _ Hq) as Em. fold m in Em. rewrite Em. exact E. }
-  assert (F4 : pagree (ext_voc t R) (reindex m M) T).
-  { intros p a Hin. unfold ext_voc in Hin. apply in_app_or in Hin.
+  assert (F4 : pagree (ext_voc_public t R) (reindex m M) T).
+  { intros p a Hin. unfold ext_voc_public in Hin. apply in_app_or in Hin.
     destruct (in_dec pred_dec (mkpred p (List.length a)) privR) as [Hp|Hp]; [apply F2; exact Hp|].
     assert (Hpubq : In (mkpred p (List.length a)) public).
     { destruct Hin as [Hin|Hin]; [|exact Hin].
@@ -263,13 +265,14 @@ Proof.
     intros [p n] Hq d Hl. cbn in *. subst n. symmetry. refine (proj1 (F3 p d _)).
     unfold public, ug_public_predicates. apply in_iset_extend. left. exact Hq. }
   assert (HstM : ext_stable_full t FI (reindex m M) R).
-  { apply (ext_stable_pagree t R GR thr FI (reindex m M) T HtR (no_input_in_head t R HhR) HoR HGR Etr F4). exact HstR. }
+  { apply (ext_stable_pagree t R GR thr FI (reindex m M) T HtR (no_input_in_head t R HhR) HoR HGR Etr
+             (fun p a H => F4 p a (ext_voc_incl_public t R _ H))). exact HstR. }
   assert (Hal : tvalid FI M (assumptions_of lft)).
   { apply (proj1 (accepted_assumptions_supported fuel t L w pbs lft rgt Hs Hfull El0 Er0 FI M)).
     fold ph. rewrite EprivL.
     apply (supported_agree M' M (ph_program FI ph L) privL); [| |exact HM2].
     - intros [p n] Hq d Hl. cbn in *. subst n. symmetry. rewrite ph_program_preds in Hq. apply (F1 p d).
-      unfold ext_voc. apply in_or_app. left. exact Hq.
+      unfold ext_voc_public. apply in_or_app. left. exact Hq.
     - intros p Hp. rewrite ph_program_preds. apply (HprivL p Hp). }
   assert (Har : tvalid FI M (assumptions_of rgt)).
   { injection Er as <-.
@@ -360,7 +363,7 @@ Qed.
 (* ---------- the two class conditions are decidable ---------- *)
 Definition rename_faithfulb (t : ext_task) (L : program) : bool :=
   let m := task_mapping t in let privR := task_prog_private t in
-  forallb (fun q => negb (memb pred_dec (mkpred (rn_name m (psym q) (parity q)) (parity q)) (ext_voc t L))) privR
+  forallb (fun q => negb (memb pred_dec (mkpred (rn_name m (psym q) (parity q)) (parity q)) (ext_voc_public t L))) privR
   && forallb (fun q => forallb (fun q' =>
         negb (Nat.eqb (parity q) (parity q') && String.eqb (rn_name m (psym q) (parity q)) (rn_name m (psym q') (parity q')))
         || String.eqb (psym q) (psym q')) privR) privR.
